@@ -42,6 +42,22 @@ constexpr nterm<int> list("list");
         list(list, ',', number) >= [](int sum, skip, const auto& n){ return sum + to_int(n); })'''),
 }
 
+# long literals: the fixed-capacity stacks chosen for cstring_buffer<N> must keep the parse a constant expression at any literal length
+# (one-dimensional sweep around 2^8 and 2^10, accepted and rejected inputs)
+def _long_stars():
+    out = []
+    for n in (100, 255, 256, 257, 1021, 1022, 1023, 1024, 1025, 1100, 2047, 2048, 2049):
+        out.append('*' * n)
+    out += ['*' * 1100 + 'x', ' ' * 1030 + '*', '*' * 600 + ' ' + '*' * 600]
+    return out
+def _long_recovery():
+    return ['x' * n + ';' for n in (255, 1021, 1022, 1023, 1024, 1100)] + ['x' * 600 + 'y' + 'x' * 600 + ';', 'x' * 1100 + 'y', 'y' * 1100 + ';']
+def _long_expr():
+    return ['(' * d + '1' + ')' * d for d in (100, 340, 511, 512, 600)] + ['1' + '+2' * k for k in (300, 511, 512, 600)] + ['(' * 600 + '1', '1' + '+2' * 600 + '+']
+GRAMMARS['stars-long'] = dict(GRAMMARS['stars'], long=_long_stars())
+GRAMMARS['recovery-long'] = dict(GRAMMARS['recovery'], long=_long_recovery())
+GRAMMARS['expr-long'] = dict(GRAMMARS['expr'], long=_long_expr())
+
 def lit(s):
     out = ''
     for ch in s:
@@ -57,6 +73,7 @@ def main():
     inputs = ['']
     for l in range(1, n + 1):
         inputs += [''.join(t) for t in itertools.product(G['alphabet'], repeat=l)]
+    if 'long' in G: inputs = list(G['long'])
     lines = ['#include <ctpg/ctpg.hpp>', '#include <cstdio>', '#include <string>', '#include <optional>',
              'using namespace ctpg; using namespace ctpg::ftors; using namespace ctpg::buffers;', G['code'],
              'constexpr parser p(PARSER_ARGS);']
